@@ -635,3 +635,7 @@ def check(run):
     p2_raw_deflate(run)
     s1_soap(run)
     i1_no_template_sinks(run)
+    from ..common_rules import shared_state_rule
+    shared_state_rule(run, "S2", {"soap", "pack", "httpbase", "s_utils",
+                                  "httputil"},
+                      "decoding / packaging one message")
